@@ -989,4 +989,124 @@ Section Proofs.
     - apply NoDup_keys_update. constructor.
   Qed.
 
+  (* ================= == against a built-in set ================= *)
+  Lemma existsb_ieqb_l v xs : existsb (fun y => ieqb v y) xs = true <-> In v xs.
+  Proof.
+    rewrite existsb_exists. split.
+    - intros [y [Hy E]]. apply ieqb_eq in E. now subst.
+    - intro H. exists v. split; auto. apply ieqb_refl.
+  Qed.
+  Lemma existsb_ieqb_r y vs : existsb (fun v => ieqb v y) vs = true <-> In y vs.
+  Proof.
+    rewrite existsb_exists. split.
+    - intros [v [Hv E]]. apply ieqb_eq in E. now subst.
+    - intro H. exists y. split; auto. apply ieqb_refl.
+  Qed.
+
+  Lemma dedup_nodup vs : NoDup vs -> dedup ieqb vs = vs.
+  Proof.
+    induction 1 as [|x l Hx N IH]; simpl; auto.
+    destruct (existsb (fun y => ieqb x y) l) eqn:E.
+    - apply existsb_ieqb_l in E. contradiction.
+    - now rewrite IH.
+  Qed.
+
+  Lemma set_eq_spec vs xs : NoDup vs -> NoDup xs ->
+    set_eq ieqb vs xs =
+      forallb (fun v => existsb (fun y => ieqb v y) xs) vs
+      && forallb (fun y => existsb (fun v => ieqb v y) vs) xs.
+  Proof.
+    intros Nv Nx. unfold set_eq. rewrite dedup_nodup by auto. apply bool_iff.
+    rewrite !andb_true_iff, !forallb_forall, Nat.eqb_eq. split.
+    - intros [L Hi]. split; auto. intros y Hy. apply existsb_ieqb_r.
+      assert (Iv : incl vs xs) by (intros v Hv; apply existsb_ieqb_l; auto).
+      assert (Ix : incl xs vs) by (apply (NoDup_length_incl Nv); [lia|exact Iv]).
+      now apply Ix.
+    - intros [H1 H2]. split; auto.
+      assert (Iv : incl vs xs) by (intros v Hv; apply existsb_ieqb_l; auto).
+      assert (Ix : incl xs vs) by (intros y Hy; apply existsb_ieqb_r; auto).
+      pose proof (NoDup_incl_length Nv Iv). pose proof (NoDup_incl_length Nx Ix). lia.
+  Qed.
+
+  Lemma inv_vals_nodup' d : Inv d -> NoDup (vals d).
+  Proof. intro I. eapply NoDup_map_inv. apply inv_vals_nodup. exact I. Qed.
+
+  (* ================= every operation ================= *)
+  Notation step := (step key keqb ieqb valid as_key as_item key_of_key).
+  Notation spec_step := (spec_step key keqb ieqb valid key_of_key).
+
+  (* a built-in set operand is given by its iteration order: no item twice *)
+  Definition wf_operand (p : @operand item) : Prop :=
+    match p with PSet xs => NoDup xs | _ => True end.
+  Definition wf_op (o : op) : Prop :=
+    match o with OEq p | ONe p => wf_operand p | _ => True end.
+
+  Lemma eq_body_spec d p : Inv d -> wf_operand p ->
+    eq_body key keqb ieqb d p =
+      match p with
+      | PKS _ xs => dict_eq keqb ieqb d (the_map xs)
+      | PSelf => dict_eq keqb ieqb d d
+      | PSet xs => forallb (fun v => existsb (fun y => ieqb v y) xs) (vals d)
+                   && forallb (fun y => existsb (fun v => ieqb v y) (vals d)) xs
+      | PList _ => false
+      end.
+  Proof.
+    intros I W. destruct p; simpl; auto. apply set_eq_spec; auto. now apply inv_vals_nodup'.
+  Qed.
+
+  Theorem step_refines enf d o : Inv d -> TInv d -> wf_op o ->
+    step enf d o = spec_step enf d o.
+  Proof.
+    intros I T W. destruct o; simpl.
+    - (* OAdd *) unfold add, add_untyped, Spec.spec_add, clashes.
+      destruct (valid x); auto.
+      destruct (lookup (key x) d) as [y|];
+        [destruct (enf && negb (ieqb y x)); reflexivity|rewrite andb_false_r; reflexivity].
+    - (* ODiscard *) now rewrite discard_spec.
+    - (* ORemove *) rewrite contains_member, discard_spec by auto.
+      destruct (member enf d a); reflexivity.
+    - (* OPop *) destruct d as [|[k y] d]; [reflexivity|now apply pop_spec].
+    - (* OClear *) now apply clear_spec.
+    - (* OContains *) now rewrite contains_member.
+    - (* OGetItem *) rewrite getitem_spec by auto. destruct (lookup (denote a) d); reflexivity.
+    - reflexivity.
+    - reflexivity.
+    - reflexivity.
+    - reflexivity.
+    - reflexivity.
+    - (* OEq *) now rewrite eq_body_spec.
+    - (* ONe *) now rewrite eq_body_spec.
+    - (* OLe *) f_equal. apply compare_spec; auto. intros. now apply le_body_spec.
+    - (* OLt *) f_equal. apply compare_spec; auto. intros. simpl. now rewrite le_body_spec.
+    - (* OGe *) f_equal. apply compare_spec; auto. intros. now apply ge_body_spec.
+    - (* OGt *) f_equal. apply compare_spec; auto. intros. simpl. now rewrite ge_body_spec.
+    - (* OIsDisjoint *) unfold isdisjoint. do 3 f_equal. apply forallb_ext'.
+      intros x _. f_equal. now apply contains_member.
+    - (* OAnd *) now rewrite set_and_spec.
+    - (* OOr *) now rewrite set_or_spec.
+    - (* OSub *) now rewrite set_sub_spec.
+    - (* OXor *) now rewrite set_xor_spec.
+    - (* ORAnd *) now rewrite set_and_spec.
+    - (* OROr *) now rewrite set_or_spec.
+    - (* ORSub *) now rewrite set_rsub_spec.
+    - (* ORXor *) now rewrite set_xor_spec.
+    - (* OIOr *) unfold ior, inplace.
+      pose proof (ior_stage_spec enf d (oitems d p) I [] inv_nil) as S. simpl in S.
+      specialize (S (fun _ j ys yd H => False_ind _ (eq_ind None (fun o => match o with None => True | Some _ => False end) Logic.I _ H))).
+      destruct (ior_stage enf d (oitems d p) []) as [st'|e]; rewrite S; reflexivity.
+    - (* OIAnd *) unfold iand, inplace. rewrite set_sub_spec by auto. unfold Spec.spec_sub.
+      destruct (omap enf d p) as [[eb b]|e]; auto.
+      rewrite discard_all_submap by auto. f_equal. apply filter_ext_in'.
+      intros e _. apply negb_involutive.
+    - (* OISub *) unfold isub. destruct p; try (now rewrite discard_all_filter).
+      rewrite clear_spec by auto. f_equal. symmetry. apply filter_none.
+      intros e He. apply negb_false_iff. apply existsb_exists. exists (snd e). split.
+      + apply in_map_iff. exists e; auto.
+      + eapply matches_own; eauto.
+    - (* OIXor *) unfold ixor, inplace. destruct p; try (now rewrite clear_spec);
+        rewrite set_xor_spec by auto;
+        match goal with |- context[spec_xor enf d ?q] => destruct (spec_xor enf d q) as [r|e] eqn:X end;
+        auto; apply spec_xor_ok in X; rewrite update_nil by apply X; reflexivity.
+  Qed.
+
 End Proofs.
